@@ -127,9 +127,11 @@ template <bool Nonempty, bool Finalizable>
 inline bool nikolaev_scq::enqueue(std::uint64_t value, std::size_t capacity, std::size_t remap_shift) {
   assert(value < capacity);
   const std::size_t n = capacity * 2;
+  const std::size_t value_mask = n - 1;
   const std::size_t is_safe_and_value_mask = 2 * n - 1;
 
-  value ^= is_safe_and_value_mask;
+  // the new entry is written with the is_safe flag set
+  value ^= value_mask;
 
   for (;;) {
     auto tail = _tail.fetch_add(index_inc, std::memory_order_relaxed);
@@ -214,7 +216,8 @@ inline bool nikolaev_scq::dequeue(std::uint64_t& value, std::size_t capacity, st
           goto retry;
         }
         assert((head_cycle & is_safe_and_value_mask) == is_safe_and_value_mask);
-        entry_new = head_cycle;
+        // keep the is_safe flag of the entry: an unsafe slot must stay unsafe
+        entry_new = head_cycle ^ (~entry & n);
       }
     } while (
       diff(entry_cycle, head_cycle) < 0 &&
